@@ -91,6 +91,9 @@ Proof.
   change 255 with (N.ones 8). rewrite N.land_ones. apply N.mod_lt. discriminate.
 Qed.
 
+From Coq Require Import ZArith Lia ZifyN.
+Section UpdateArith.
+Ltac Zify.zify_post_hook ::= Z.div_mod_to_equations.
 Theorem update_is_pkware k c : c < 256 ->
   keys_of (ZipCryptoKeys_update k c) = update_keys (keys_of k) c.
 Proof.
@@ -99,11 +102,12 @@ Proof.
   cbn [ZipCryptoKeys_key_0 ZipCryptoKeys_key_1 ZipCryptoKeys_key_2 k0 k1 k2].
   rewrite crc32_is_pkware by assumption.
   set (key0 := crc32_step (ZipCryptoKeys_key_0 k) c).
-  assert (E1 : wrap 32 (wrap 32 (wrap 32 (ZipCryptoKeys_key_1 k + N.land key0 255) * 134775813) + 1)
-               = ((ZipCryptoKeys_key_1 k + N.land key0 255) * 134775813 + 1) mod 2 ^ 32).
-  { unfold wrap. rewrite N.add_mod_idemp_l by discriminate.
-    rewrite <- N.add_mod_idemp_l by discriminate. rewrite N.mul_mod_idemp_l by discriminate.
-    rewrite N.add_mod_idemp_l by discriminate. reflexivity. }
+  (* whatever order and nesting of wrapping operations the source spells the key_1 update in: it is this value
+     (linear arithmetic modulo 2^32, decided by lia) *)
+  match goal with |- {| k0 := _; k1 := ?T; k2 := _ |} = _ =>
+    assert (E1 : T = ((ZipCryptoKeys_key_1 k + N.land key0 255) * 134775813 + 1) mod 2 ^ 32)
+      by (unfold wrap; change (2 ^ 32) with 4294967296; generalize (N.land key0 255); intro lo; lia)
+  end.
   rewrite E1. set (key1 := ((ZipCryptoKeys_key_1 k + N.land key0 255) * 134775813 + 1) mod 2 ^ 32).
   assert (Hk1 : N.shiftr key1 24 < 256).
   { rewrite N.shiftr_div_pow2. subst key1. apply N.div_lt_upper_bound; [discriminate|].
@@ -111,6 +115,7 @@ Proof.
   unfold cast. change (2 ^ 8) with 256. rewrite (N.mod_small _ _ Hk1).
   rewrite crc32_is_pkware by assumption. reflexivity.
 Qed.
+End UpdateArith.
 
 Example ex_roundtrip : snd (zc_decrypt (zc_derive [x70; x77]) (snd (zc_encrypt (zc_derive [x70; x77]) [x68; x69]))) = [x68; x69].
 Proof. vm_compute. reflexivity. Qed.
